@@ -17,7 +17,7 @@ F = ['Position::makeMove (position.cpp:231-298)', 'Position::unMakeMove (301-344
      'Position::setEpSquare/setCastleMask/setWhiteMove (position.hpp)', 'MatId::addPiece/removePiece (material.hpp)', 'Position::castleSqMask, psHashKeys, castleHashKeys, epHashKeys (dumped real tables)', 'BitBoard::epMaskW/epMaskB']
 
 def build(tier):
-    u = Unit('pos', 'C02/pos.cpp', ['h_matid', 'h_step', 'h_undo', 'h_setpiece', 'h_edits', 'h_scratchhash', 'h_serialize'],
+    u = Unit('pos', 'C02/pos.cpp', ['h_matid', 'h_step', 'h_undo', 'h_undoB', 'h_setpiece', 'h_edits', 'h_scratchhash', 'h_serialize'],
              allow_extern=[r'_ZN11NNEvaluator.*'])   # behind if(nnEval): nnEval is concretely nullptr in every harness
     kinds = ['white piece', 'white king (incl. castling)', 'white pawn (push, double push, capture, en passant, promotion)',
              'black piece', 'black king (incl. castling)', 'black pawn (push, double push, capture, en passant, promotion)']
@@ -28,6 +28,9 @@ def build(tier):
                       unwind=65, param=k, timeout=1800, mem_gb=12, functions=F, backend='kissat', bounds='arbitrary state (64 symbolic squares, 12 symbolic piece sets, symbolic keys/sums/counters); any from/to/promotion of the shape class'))
         obs.append(Ob('O1-step@%d' % k, u, 'h_step', 'makeMove step, mover = ' + kinds[k] + ': frame, local invariant, key/sum deltas, rules, invariant preservation, undo record',
                       unwind=65, param=k, timeout=1800, mem_gb=12, functions=F, backend='kissat', bounds='arbitrary state (64 symbolic squares, 12 symbolic piece sets, symbolic keys/sums/counters); any from/to/promotion of the shape class'))
+        obs.append(Ob('O1-undoB@%d' % k, u, 'h_undoB', 'makeMoveB then unMakeMoveB (the board-only pair MoveGen::isLegal runs on the live position), mover = ' + kinds[k] + ': board as after the move, side/rights/keys/material untouched, and the take-back restores a bit-identical state',
+                      unwind=65, param=k, timeout=1800, mem_gb=12, functions=['Position::makeMoveB (position.cpp:347-390)', 'Position::unMakeMoveB (position.hpp:445-474)', 'setPieceB', 'movePieceNotPawnB'], backend='kissat',
+                      bounds='arbitrary state (64 symbolic squares, 12 symbolic piece sets, symbolic keys/sums/counters); any from/to/promotion of the shape class'))
     names = ['setPiece', 'clearPiece', 'movePieceNotPawn']
     for k in range(3):
         obs.append(Ob('O3-%s' % names[k], u, 'h_setpiece', names[k] + ' from an arbitrary state: frame, local invariant, key/sum deltas', unwind=65, param=k, timeout=900,
@@ -36,9 +39,21 @@ def build(tier):
         Ob('O4-edits', u, 'h_edits', 'setWhiteMove/setCastleMask/setEpSquare move the hash by exactly the right keys and reverting them restores the state (null-move style edits)',
            unwind=65, functions=F[3:4], bounds='arbitrary state; any target values'),
     ]
-    for g in range(16):
+    # quick: four of the 16 square groups (one per board quarter, together touching every rank pair); thorough: all 16, i.e. every (piece, square) pair
+    for g in ((0, 5, 10, 15) if tier == 'quick' else range(16)):
         obs.append(Ob('O5-scratchhash@g%d' % g, u, 'h_scratchhash', 'computeZobristHash = XOR of piece-square, side, castle, ep-file keys; pawn key and material signature likewise (so positions equal under the repetition rule have equal keys); men on squares %d..%d' % (4 * g, 4 * g + 3),
            unwind=65, param=g, timeout=900, backend='kissat', functions=['Position::computeZobristHash (position.cpp:512-529)'], bounds='any piece code 0..12 on each of the four squares of the group, rest of the board empty; any side/castling/ep; the 16 groups cover every (piece, square) pair'))
         obs.append(Ob('O6-serialize@g%d' % g, u, 'h_serialize', 'deSerialize(serialize(p)) restores board, flags, counters and recomputes every derived field to its from-scratch value; men on squares %d..%d' % (4 * g, 4 * g + 3),
            unwind=65, param=g, timeout=900, backend='kissat', functions=['Position::serialize/deSerialize (position.cpp:420-499)'], bounds='any piece code 0..12 on each of the four squares of the group, rest empty; halfMoveClock <= 255, fullMoveCounter <= 65535; the 16 groups cover every (piece, square) pair'))
-    return [u], obs
+    # ---- O7: the FEN reader's en-passant fix-up ("positions equal under the rules have equal keys": a phantom ep square changes the key).  Same harness and
+    # obligations as C01-O4a (real TextIO::fixupEPSquare vs the list-of-men oracle, on the contract of the legal move list).
+    import copy
+    from props import C01
+    units1, obs1 = C01.build(tier)
+    extra = []
+    for o in obs1:
+        if o.oid.startswith('O4a-fixupEP'):
+            o2 = copy.copy(o); o2.oid = 'O7' + o.oid[2:]
+            obs.append(o2)
+            if o.unit not in extra: extra.append(o.unit)
+    return [u] + extra, obs
